@@ -239,6 +239,10 @@ namespace bloch::runtime {
             bool initialized = false;
         };
         std::vector<std::unordered_map<std::string, VarEntry>> m_env;
+        // Index into m_env of the first scope of each active function/method/constructor/
+        // destructor/initialiser body: name lookup stops there (lexical scoping), while the
+        // collector still walks the whole stack for roots.
+        std::vector<size_t> m_frameBases;
         Value m_returnValue;
         bool m_hasReturn = false;
         std::unordered_map<const Expression*, std::vector<int>> m_measurements;
@@ -333,6 +337,9 @@ namespace bloch::runtime {
         // Scope & output helpers
         void beginScope();
         void endScope();
+        void beginFrame();
+        void endFrame();
+        size_t frameBase() const { return m_frameBases.empty() ? 0 : m_frameBases.back(); }
         void flushEchoes();
 
        public:
